@@ -5,7 +5,7 @@ from __future__ import annotations
 import hashlib
 
 from checks.common import Reporter, confirm_minimise_report, default_workers, run_regressions
-from simkit.core import Evidence, log, merge_counts, run_seed
+from simkit.core import mark_cover, reach_report, Evidence, log, merge_counts, run_seed
 from simkit.pool import ZygotePool, unwrap
 from worlds import viewworld
 
@@ -35,6 +35,7 @@ def main(tier: str, seed: int, opts) -> int:
     log(f"[C15] VERIF_SEED={seed} tier={tier} sessions={len(jobs)}")
     with ZygotePool(workers=default_workers(), preload="worlds.viewworld") as pool:
         n_reg = run_regressions(rep, pool, PROP)
+        mark_cover(jobs)
         results = [unwrap(r, "C15 session") for r in pool.map(jobs, progress="C15")]
         stats: dict = {}
         hashes, nthashes, shapes = set(), set(), set()
@@ -69,6 +70,7 @@ def main(tier: str, seed: int, opts) -> int:
             from worlds.decgen import canonical_text
 
             samples.append({"documents": [canonical_text(d)[:1500] for d in s0["case"]["docs"]], "ops": s0["case"]["ops"]})
+    cover_hits = set(pool.cover_hits)
     ev.cov.update({
         "evaluations": len(results),
         "distinct_nontrivial": len(nthashes),
@@ -87,6 +89,7 @@ def main(tier: str, seed: int, opts) -> int:
                               "graph_built_from_a_worker_thread": stats.get("builds_in_worker_thread", 0)},
         "distinct_abstract_histories": len(hashes),
         "regression_replays_run": n_reg,
+        "anchored_code_reach": reach_report(PROP, cover_hits),
         "log_digest": digest.hexdigest(),
         "components": {"real": ["decaylanguage.decay.viewer.DecayChainViewer", "graphviz (Python)", "dot (binary, subprocess)", "DecFileParser.build_decay_chains", "DecayChain.to_dict"],
                        "simulated": ["the session (order and mix of constructions, failures, bystanders)"],
